@@ -21,7 +21,7 @@ ASSUMPTIONS = [
     "numeric contents are symbolic integers in [-2^40, 2^40]; strings are drawn from small fixed sets",
     "the socket / HTTP server themselves are not exercised",
 ]
-BOUNDS = {"quick": "54 message classes with contents of <= 3 items; computation definitions for pair and chain-3 on the 4 graph models; AgentDef with <= 2 routes / hosting costs",
+BOUNDS = {"quick": "54 message classes with contents of <= 3 items (replication request paths of 2 and 12 hops); computation definitions for pair and chain-3 on the 4 graph models; AgentDef with <= 2 routes / hosting costs",
           "thorough": "quick + triangle and ternary instances, variable cost tables, paths / offers with 3 entries"}
 OUTSIDE = "arbitrary strings, floats other than integers and the special values, messages of algorithms outside pydcop.algorithms"
 CAP_S = {"quick": 900, "thorough": 3600}
@@ -228,8 +228,13 @@ def message_cases(eng, tier):
         cd = ComputationDef(cg.nodes[0], AlgorithmDef.build_with_default_param("dsa", {}, mode="min"))
         n = eng.choose(3, "n_paths")
         paths = [(_num(eng, "pcost_%d" % i), ("a1", "a%d" % (i + 2))) for i in range(n)]
+        # request paths are plain tuples of agent names; a long replication path has more than 10 hops
+        hops = eng.pick([2, 12], "path_hops")
+        rq_path = tuple("a%02d" % i for i in range(hops))
+        if hops > 2:
+            paths.append((_num(eng, "pcost_long"), rq_path))
         return ucs.UCSReplicateMessage(eng.pick(["replicate_request", "replicate_answer"], "t"), eng.sym_int("budget", 0, LIM),
-                                       eng.sym_int("spent", 0, LIM), ("a1", "a2"), paths, names("visited"), cd,
+                                       eng.sym_int("spent", 0, LIM), rq_path, paths, names("visited"), cd,
                                        eng.sym_int("footprint", 0, LIM), eng.sym_int("rc", 0, 10), names("hosts"))
     add("ucs.UCSReplicateMessage", ucsmsg)
     return cases
